@@ -233,3 +233,28 @@ Proof.
     intro x. apply plain_delete_function_idem.
   - intros s q. cbn [delete_function sources]. apply IH.
 Qed.
+
+(* ---- register through any context: exact effect on the store -------------------------------------------------- *)
+Lemma register_spec s c f ex : wfo c -> Forall (fun p => p < length s) (sources c) ->
+  exists p r, sources c = p :: r
+    /\ (forall q, q <> p -> sget (fst (register s c f ex)) q = sget s q)
+    /\ pdata (sget (fst (register s c f ex)) p) = pdata (sget s p)
+    /\ (forall g, In g (pfuncs (sget (fst (register s c f ex)) p)) <-> g = f \/ In g (pfuncs (sget s p)))
+    /\ (forall k, In k (pexcl (sget (fst (register s c f ex)) p)) <-> (ex = true /\ k = fst f) \/ In k (pexcl (sget s p))).
+Proof.
+  intros W B. destruct (target_sources c W) as [p [Ht [r Hs]]]. exists p, r. split; [exact Hs|].
+  rewrite Hs in B. inversion B as [|? ? Hp _]; subst.
+  unfold register. rewrite Ht. cbn [fst]. split; [|split; [|split]].
+  - intros q Hq. apply sget_supd_other. auto.
+  - rewrite sget_supd_same by exact Hp. reflexivity.
+  - intro g. rewrite sget_supd_same by exact Hp. cbn [pfuncs].
+    destruct (fmem f (pfuncs (sget s p))) eqn:E.
+    + apply fmem_In in E. split; [auto|]. intros [->|H]; assumption.
+    + rewrite in_app_iff. cbn [In]. split; [intros [H|[H|[]]]; auto|intros [->|H]; auto].
+  - intro k. rewrite sget_supd_same by exact Hp. cbn [pexcl].
+    destruct ex; cbn [andb].
+    + destruct (smem (fst f) (pexcl (sget s p))) eqn:E; cbn [negb].
+      * apply smem_In in E. split; [auto|]. intros [[_ ->]|H]; assumption.
+      * rewrite in_app_iff. cbn [In]. split; [intros [H|[H|[]]]; auto|intros [[_ ->]|H]; auto].
+    + split; [auto|]. intros [[H _]|H]; [discriminate|exact H].
+Qed.
